@@ -262,6 +262,8 @@ seq!(c10_q_layer_ud_layer, 9, true, [LAYER, UD, LAYER]);
 seq!(c10_q_layer_layer_ud, 9, true, [LAYER, LAYER, UD]);
 seq!(c10_q_tags_ud_layer_ud, 9, true, [TAGS2, UD, LAYER, UD]);
 seq!(c10_q_cel_newpal_ud, 9, true, [CEL, NEWPAL, UD]);
+seq!(c10_q_layer_newpal_oldpal_ud, 9, true, [LAYER, NEWPAL, OLDPAL, UD]);
+seq!(c10_q_oldpal_layer_oldpal11_ud, 9, true, [OLDPAL, LAYER, OLDPAL11, UD]);
 // thorough: longer mixes
 seq!(c10_t_layer_ud_cel_ud_slice_ud, 9, true, [LAYER, UD, CEL, UD, SLICE, UD]);
 seq!(c10_t_oldpal11_external_ud, 9, true, [OLDPAL11, EXTERNAL, UD]);
@@ -272,3 +274,37 @@ seq!(c10_t_oldpal_ud_layer_cel_ud, 9, true, [OLDPAL, UD, LAYER, CEL, UD]);
 seq!(c10_t_layer_ud_tags_ud_slice_ud, 9, true, [LAYER, UD, TAGS2, UD, SLICE, UD]);
 seq!(c10_t_newpal_ud_dangling, 9, false, [NEWPAL, UD]);
 seq!(c10_t_ignorable_ud_dangling, 9, false, [IGNORABLE, UD]);
+
+/// the user-data chunk decoder itself with the whole 32-bit flag word symbolic: text iff bit 0, colour iff bit 1,
+/// no other bit changes what is reported (11 bytes: room for a 1-byte text and a colour on every path)
+#[kani::proof]
+#[kani::unwind(6)]
+#[kani::stub(alloc::fmt::format, crate::vklib::empty_format)]
+fn c10_q_userdata_flag_word_any() {
+    let mut buf: [u8; 11] = kani::any();
+    buf[4] = 1;
+    buf[5] = 0;
+    kani::assume(buf[6] < 0x80);
+    let flags = rd32(&buf, 0);
+    // without text the bytes 4..8 are the colour, with text the bytes 7..11
+    let ud = match crate::user_data::parse_userdata_chunk(&buf) {
+        Ok(u) => u,
+        Err(_) => {
+            assert!(false, "user data chunk with enough bytes decodes for every flag word");
+            return;
+        }
+    };
+    match &ud.text {
+        None => assert!(flags & 1 == 0, "text reported only when its flag is set"),
+        Some(t) => assert!(flags & 1 != 0 && t.len() == 1 && t.as_bytes()[0] == buf[6]),
+    }
+    let at = if flags & 1 != 0 { 7 } else { 4 };
+    match &ud.color {
+        None => assert!(flags & 2 == 0, "colour reported only when its flag is set"),
+        Some(c) => assert!(flags & 2 != 0 && c.0[0] == buf[at] && c.0[1] == buf[at + 1] && c.0[2] == buf[at + 2] && c.0[3] == buf[at + 3]),
+    }
+    kani::cover!(flags == 4);
+    kani::cover!(flags == 0xffff_fffd);
+    kani::cover!(flags == 3);
+    core::mem::forget(ud);
+}
